@@ -1,5 +1,6 @@
 """Record, for every function under contract, how many for/while statements it has on the tree the contracts were written for
-(contracts/loops.json). Invariants are keyed by loop ordinal; if a later tree has a different number of loops in a function, the
+(contracts/loops.json) and which parameters it has (contracts/signatures.json: a parameter added later, with a default, is taken at its
+default when the function is verified, and a call that passes it is 'needs contract'). Invariants are keyed by loop ordinal; if a later tree has a different number of loops in a function, the
 ordinals no longer identify the loops the invariants were written for, and failing obligations of that function are reported as
 'undecided - invariants need re-anchoring', not as violations.  Re-run after (re)writing invariants:  python3-vt tools/gen_loops.py"""
 import ast, json, os, sys
@@ -27,10 +28,17 @@ if __name__ == '__main__':
     repo = sys.argv[1] if len(sys.argv) > 1 else '/repo'
     idx = RepoIndex(repo)
     side = Sidecar(os.path.join(HERE, 'contracts'))
-    data = {}
+    data, sigs = {}, {}
     for k, con in sorted(side.contracts.items()):
         fi = idx.funcs.get(k)
         if fi is not None and not con.bounded and not con.trusted:
             data[k] = loop_headers(fi.node)
+    # parameter names of every function under contract (also trusted ones: they are applied at call sites)
+    for k, con in sorted(side.contracts.items()):
+        fi = idx.funcs.get(k)
+        if fi is not None and not isinstance(fi.node, ast.Lambda):
+            a = fi.node.args
+            sigs[k] = [p.arg for p in a.posonlyargs + a.args + a.kwonlyargs] + ([a.vararg.arg] if a.vararg else []) + ([a.kwarg.arg] if a.kwarg else [])
     json.dump(data, open(os.path.join(HERE, 'contracts', 'loops.json'), 'w'), indent=0, sort_keys=True)
-    print(len(data), 'functions;', sum(1 for v in data.values() if v), 'with loops')
+    json.dump(sigs, open(os.path.join(HERE, 'contracts', 'signatures.json'), 'w'), indent=0, sort_keys=True)
+    print(len(data), 'functions;', sum(1 for v in data.values() if v), 'with loops;', len(sigs), 'signatures')
